@@ -32,3 +32,26 @@ PROPS["C20"] = {
         lane("TestHash", "hash", 5000, 50000, shards=4),
     ],
 }
+
+PROPS["C11"] = {
+    "pkg": "c11",
+    "level": "exploration",
+    "technique": "bounded-exhaustive token-sequence enumeration + property-based testing (rapid) with token mutators; validity-predicate oracle; native fuzz lane in thorough",
+    "level_text": ("Every sequence of up to L spellings from a 30-entry token alphabet (L=3 quick, 4 thorough; joined with and without spaces) is "
+                   "enumerated completely, and random Unicode/byte strings, single/double token mutations of generated valid files and the "
+                   "repository's own sources are explored, each in both fail-fast and collect-all mode, against a validity predicate: returns "
+                   "within a watchdog, tree xor non-empty diagnostics, every diagnostic and node position inside the input with start<=end, "
+                   "first collect-all diagnostic equals the fail-fast one, HumanString(0,1,3) does not panic."),
+    "level_note": "Complete only up to L over the chosen spellings; termination is observed under a 30 s watchdog, not proven; node walk covers the exported tree (blocks, tags, qualifiers, assignments, values, descriptions, trailing comments).",
+    "rule": ("exhaustive: all sequences of length<=L over the token alphabet (incl. unterminated string/regex/block comment, bad escape, second dot, "
+             "multi-byte identifier, foreign character) x 2 joiners; random: rapid strings over all runes, raw bytes, hostile fragments; mutate: "
+             "bclgen valid file with token delete/insert/swap/duplicate/truncate (25% twice); corpus: repo fixtures + unmutated bclgen files. "
+             "Non-trivial: input yields at least one token (or is non-blank when the lexer rejects it); distinct by 64-bit hash of the text."),
+    "assumptions": ["a line is a maximal run between \n characters; columns are counted in runes; column == line length (EOL/EOF position) is inside the file"],
+    "lanes": [
+        lane("TestExhaustive", "exhaustive", 0, 0, norapid=True, shards=16, must_classes=["accepted", "parse-error", "lex-error"]),
+        lane("TestRandom", "random", 30000, 150000, shards=8),
+        lane("TestMutate", "mutate", 15000, 60000, shards=16, must_classes=["parse-error"]),
+        lane("TestCorpus", "corpus", 5000, 20000, shards=4, must_classes=["accepted"]),
+    ],
+}
